@@ -83,3 +83,6 @@
 (define-fun unfoldCommOK ((m Ref) (c Iface)) Bool
   (let ((b (g_ast.CommClause.Body (iref c)))) (and (STL m b (- (s_len b) 1)) (not (SHBp b (s_len b))))))
 (define-fun unfoldAllCommOK ((m Ref) (l Slice) (i Int)) Bool (or (<= i 0) (and (AllCommOK m l (- i 1)) (CommOK m (lget l (- i 1))))))
+; "terminating by the Go specification" for the statements pass 2 hands to the checker, with the
+; set of panic call sites existentially fixed by the matcher (abstract here): used only abstractly
+(declare-fun SpecTermAny (Iface) Bool)
